@@ -1,5 +1,6 @@
 import RsslVerif.Model.Usage
 import RsslVerif.Driver.Util
+import RsslVerif.Driver.C02Sem
 /-! Line-protocol front end of the C02 model (usage closure + implicit parameter threading on Metal).
 
 request : `C02.thread \t <globals> \t <functions> \t <entry index | ->`
@@ -136,6 +137,8 @@ def handle (op : String) (args : List String) : String :=
       | none => "bad-request"
     | _, _ => "bad-request"
   | "C02.src", _ => "unsupported: free-form source (oracle only)"
+  | "C02.gen", _ => C02Sem.handle op args
+  | "C02.wt", _ => C02Sem.handle op args
   | _, _ => "unsupported-op"
 
 end RsslVerif.Driver.C02
